@@ -66,6 +66,11 @@ func genTable(t *rapid.T) script.Table {
 	tb.Q[k[6]] = script.Outcome{Stmts: []script.Stmt{{Cols: []script.Col{{Name: "c", T: "text"}}, Ops: []script.Op{
 		{K: "copyin", Copy: &script.CopySpec{Format: int16(rapid.IntRange(0, 1).Draw(t, "copy-format")), MaxReads: -1, OnAbort: "propagate"}},
 		{K: "complete", Tag: "COPY"}}}}}
+	// a statement function that panics (with or without rows before): inside Execute the library
+	// recovers it and the message fails like any other
+	ps := goodStmt(t, "after")
+	ps.Ops[len(ps.Ops)-1] = script.Op{K: "panic"}
+	tb.Q[k[7]] = script.Outcome{Stmts: []script.Stmt{ps}}
 	return tb
 }
 
@@ -229,7 +234,7 @@ func (b *builder) randomMsg() script.CMsg {
 	return script.CMsg{K: "H"}
 }
 
-var batchKinds = []string{"copy-in-batch", "clean", "clean", "parse-error", "bind-unknown", "describeS-unknown", "describeP-unknown", "execute-unknown", "execute-fails-before-rows", "execute-fails-after-rows", "random", "random", "simple-query", "unknown-type", "close-then-use"}
+var batchKinds = []string{"copy-in-batch", "clean", "clean", "parse-error", "bind-unknown", "describeS-unknown", "describeP-unknown", "execute-unknown", "execute-fails-before-rows", "execute-fails-after-rows", "execute-panics", "random", "random", "simple-query", "unknown-type", "close-then-use"}
 
 func genCase(t *rapid.T) Case {
 	c := Case{}
@@ -296,6 +301,8 @@ func genCase(t *rapid.T) Case {
 			b.pipeline(k[2], "E")
 		case "execute-fails-after-rows":
 			b.pipeline(k[3], "E")
+		case "execute-panics":
+			b.pipeline(k[7], "E")
 		case "simple-query":
 			b.emit(script.CMsg{K: "Q", Query: rapid.SampledFrom(k[:6]).Draw(t, "query")})
 		case "unknown-type":
